@@ -15,6 +15,7 @@ def portable(rng):
         t = gen.gen_doc(rng)
         if '\t' in t or '﻿' in t[1:] or '%FOO' in t: continue
         if re.search(r':[\]\},]', t): continue          # `key:` glued to a flow indicator is a PyYAML leniency LibYAML does not share: not portable
+        if re.search(r'![^\s,\[\]{}]*[,\[\]{}]', t): continue      # a tag glued to a flow indicator: PyYAML takes , [ ] as tag characters, LibYAML ends the tag there (not 'conventional tag characters')
         return t
 
 def run(ctx):
@@ -22,7 +23,10 @@ def run(ctx):
     ctx.regen(); ctx.prove()
     rng = ctx.rng
     texts = [portable(rng) for _ in range(ctx.n(4000, 50000))]
-    corr.load(ctx, 0, texts=[t for t in texts if len(t) < 600][:ctx.n(1500, 15000)], loaders=('csafe', 'cbase', 'safe'))
+    # the non-specific tag '!' on EMPTY content is a known back-end difference (F-libyaml-bang-collection-implicit: implicit flag, hence None vs ''): it is
+    # reported through the direct comparison below, where findings are matched; the model-reference comparison leaves those documents out
+    bang_empty = re.compile(r'(^|[\s\[{,:-])!(\s*(#[^\n]*)?(\n|$)|\s*[,\]}])')
+    corr.load(ctx, 0, texts=[t for t in texts if len(t) < 600 and not bang_empty.search(t)][:ctx.n(1500, 15000)], loaders=('csafe', 'cbase', 'safe'))
     cases = [[t, rng.choice(['Base', 'Safe', 'Safe', 'Full', 'Unsafe']), rng.random() < 0.15, False] for t in texts]
     for _ in range(ctx.n(600, 6000)):
         base = rng.choice(['[a, b]', '{k: v}', '- x\n- y', 'k: [1, 2]', 'a'])
